@@ -86,3 +86,8 @@ Definition dF (x : Qc) : seq Z := dumpF x.
 Definition perR (R : nat) (f : nat -> seq Z) : seq Z := flatten [seq f r | r <- iota 0 R].
 (* log-mass of every component, then the expectation entries *)
 Definition obs_mass (u : measureQ) : seq Z := dL (uR u) (log_mass u).
+
+(* ---- slicing (C12) ---- *)
+(* take(values, idx): negative indices wrap *)
+Definition selR (R : nat) (idx : seq int) (f : nat -> seq Z) : seq Z := flatten [seq f (nidx R i) | i <- idx].
+Definition idxR (R : nat) (idx : seq int) : seq nat := [seq nidx R i | i <- idx].
